@@ -51,6 +51,59 @@ def _takes_seed(dotted):
         return "seed" if dotted in SEEDED_FALLBACK else None
 
 
+READ_ONLY_METHODS = {"get", "keys", "values", "items", "index", "count", "copy", "__getitem__", "__contains__",
+                     "__len__", "__iter__"}
+
+
+def only_read(prog, m, name, class_level=False):
+    """Is the module-level (class-level) container `name` of module m only ever read -- subscripted,
+    searched, iterated, measured -- in every module that can see it?  Any other use (passed on, returned,
+    rebound, mutator call, item assignment, augmented assignment) may change or leak it."""
+    for mod in prog.modules.values():
+        visible = mod is m or any(v == f"{m.name}.{name}" for v in mod.imports.values()) or class_level
+        if not visible:
+            # module attribute access `pkg.mod.NAME`
+            if not any(isinstance(n, ast.Attribute) and n.attr == name for n in ast.walk(mod.tree)):
+                continue
+        parents = {}
+        for n in ast.walk(mod.tree):
+            for c in ast.iter_child_nodes(n):
+                parents[c] = n
+        for n in ast.walk(mod.tree):
+            if class_level:
+                hit = isinstance(n, ast.Attribute) and n.attr == name
+            else:
+                hit = (isinstance(n, ast.Name) and n.id == name) or (isinstance(n, ast.Attribute) and n.attr == name
+                                                                     and mod is not m)
+            if not hit:
+                continue
+            par = parents.get(n)
+            if isinstance(n.ctx, ast.Store):
+                if isinstance(par, (ast.Assign, ast.AnnAssign)) and parents.get(par) in (mod.tree,) and not class_level:
+                    continue                    # the defining assignment itself
+                if class_level and isinstance(par, (ast.Assign, ast.AnnAssign)) and isinstance(parents.get(par), ast.ClassDef):
+                    continue
+                return False
+            if isinstance(n.ctx, ast.Del):
+                return False
+            if isinstance(par, ast.Subscript) and par.value is n and isinstance(par.ctx, ast.Load):
+                continue
+            if isinstance(par, ast.Compare) and n in par.comparators and \
+                    all(isinstance(o, (ast.In, ast.NotIn)) for o in par.ops):
+                continue
+            if isinstance(par, (ast.For, ast.comprehension)) and par.iter is n:
+                continue
+            if isinstance(par, ast.Call) and isinstance(par.func, ast.Name) and par.func.id in ("len", "sorted", "tuple", "frozenset", "iter", "list", "dict", "set", "enumerate") and n in par.args:
+                continue
+            if isinstance(par, ast.Attribute) and par.value is n and par.attr in READ_ONLY_METHODS and \
+                    isinstance(parents.get(par), ast.Call) and parents[par].func is par:
+                continue
+            if isinstance(par, ast.alias):
+                continue
+            return False
+    return True
+
+
 def scan_module(prog, m):
     """Findings [(rule, line, func, construct, message)] and counts for one module."""
     out, counts = [], {"E1": 0, "E2": 0, "E4": 0}
@@ -106,6 +159,8 @@ def scan_module(prog, m):
             tgt, val = n.target.id, n.value
         if tgt and tgt != "__all__" and mutable(val):
             counts["E4"] += 1
+            if only_read(prog, m, tgt):
+                continue            # a lookup table: never written, never handed out
             out.append(("E4", n.lineno, "", f"module-level {tgt} = {ast.unparse(val)[:60]}",
                         f"module-level mutable object `{tgt}` is shared by every explainer/storage created in the process"))
     for n in ast.walk(m.tree):
@@ -120,6 +175,8 @@ def scan_module(prog, m):
                     name = ast.unparse(b.targets[0] if isinstance(b, ast.Assign) else b.target)
                     if val is not None and mutable(val):
                         counts["E4"] += 1
+                        if "." not in name and only_read(prog, m, name, class_level=True):
+                            continue
                         out.append(("E4", b.lineno, n.name, f"class-level {n.name}.{name} = {ast.unparse(val)[:60]}",
                                     f"class-level mutable object `{n.name}.{name}` is shared by all instances"))
         if isinstance(n, (ast.FunctionDef, ast.AsyncFunctionDef)):
@@ -239,7 +296,8 @@ WITNESSES = [
     ("default_rng()", [(_M, "            rand_idx = random.randrange(len(features))\n", "            rand_idx = int(np.random.default_rng().integers(len(features)))\n"),
                        (_M, "import random\n", "import random\nimport numpy as np\n")]),
     ("dropping seed=seed for the regressors", [(_T, "                grace_period=grace_period, seed=seed)\n                for num_feature", "                grace_period=grace_period)\n                for num_feature")]),
-    ("class-level cache", [(_M, "class MarginalImputer(BaseImputer):\n", "class MarginalImputer(BaseImputer):\n    _cache = {}\n")]),
+    ("class-level cache", [(_M, "class MarginalImputer(BaseImputer):\n", "class MarginalImputer(BaseImputer):\n    _cache = {}\n"),
+                           (_M, "        predictions = []\n        for _ in range(n_samples):\n", "        predictions = []\n        self._cache[len(self._cache)] = x_i\n        for _ in range(n_samples):\n")]),
     ("default storage in the signature", [("ixai/explainer/sage/batch.py", "storage: Optional[BaseStorage] = None,\n            imputer: Optional[BaseImputer] = None,\n    ):\n        self.feature_names", "storage: Optional[BaseStorage] = BatchStorage(store_targets=True),\n            imputer: Optional[BaseImputer] = None,\n    ):\n        self.feature_names")]),
     ("reseeding inside the library", [("ixai/storage/geometric_reservoir_storage.py", "            random_float = random.random()\n", "            random.seed(len(self._storage_x))\n            random_float = random.random()\n")]),
     ("time-based tie break", [("ixai/storage/geometric_reservoir_storage.py", "            random_float = random.random()\n", "            import time\n            random_float = (random.random() + time.time()) % 1\n")]),
@@ -247,5 +305,8 @@ WITNESSES = [
     ("seed forced to None", [(_T, "grace_period=grace_period, seed=seed)\n            for cat_feature", "grace_period=grace_period, seed=None)\n            for cat_feature")]),
 ]
 SILENT = [
+    ("read-only class-level lookup table", [(_M, "class MarginalImputer(BaseImputer):\n", "class MarginalImputer(BaseImputer):\n    _STRATEGIES = {'joint': True, 'product': False}\n"),
+                                            (_M, "        if self.sampling_strategy == 'joint':", "        if self._STRATEGIES.get(self.sampling_strategy, False):")]),
+
     ("explicit seed derivation via numpy", [(_T, "seed = random.randrange(2 ** 32)", "seed = int(np.random.randint(0, 2 ** 31 - 1))")]),
 ]
